@@ -789,7 +789,47 @@ def r17_14(chk):
     chk.floor("R17.14", 4, "four SQL-builder call sites")
 
 
+def r17_15(chk):
+    chk.rule("R17.15", "no row without coordinates: the readers (get_features_matching, to_rich_dict) use `spans` of every stored row unconditionally, so in each row builder the insertion of a row is not reachable on a path on which that row's `spans` was not assigned (a GenBank feature whose location cannot be interpreted -- e.g. the between-bases form 15^16 -- is left out, not stored with NULL spans/start/stop where it makes every unfiltered query and the serialisation raise)")
+    from ..cfg import build
+
+    m = chk.repo.module(DB)
+    n = 0
+    for q in ROW_BUILDERS:
+        fn = m.func(q)
+        g = build(fn)
+        span_nodes = g.nodes_containing(lambda x: isinstance(x, ast.Assign) and len(x.targets) == 1 and _target_name(x.targets[0])[0] == "spans") if False else [nd for nd in g.nodes if isinstance(getattr(nd, "ast", None), ast.Assign) and len(nd.ast.targets) == 1 and _target_name(nd.ast.targets[0])[0] == "spans"]
+        inserts = g.nodes_containing(lambda x: isinstance(x, ast.Call) and ((isinstance(x.func, ast.Attribute) and x.func.attr == "append" and norm(x.func.value) == "rows") or (call_name(x) or "").split(".")[-1] == "_add_record_sql"))
+        if not inserts:
+            raise AnalysisError(f"{q}: row insertion not found")
+        loops = [nd for nd in g.nodes if nd.kind == "loop"]
+        n += 1
+        k = key(m, q, "a row is inserted only with its spans")
+        bad = None
+        if loops:
+            for lp in loops:
+                body_first = [b for b, kd in lp.succ if kd == "n" and any(b.ast is st or any(b.ast is y for y in ast.walk(st)) for st in lp.ast.body)]
+                seen = g.reachable(body_first, blocked=span_nodes, kinds=("n",))
+                for ins in inserts:
+                    if id(ins) in seen and any(ins.ast is y or any(ins.ast is z for z in ast.walk(y)) for y in ast.walk(lp.ast)):
+                        bad = g._path(seen, ins)
+        else:
+            seen = g.reachable([g.entry], blocked=span_nodes, kinds=("n",))
+            # add_feature: spans is a parameter, re-bound from it; nothing to show
+            params = set(params_of(fn))
+            if "spans" not in params:
+                for ins in inserts:
+                    if id(ins) in seen:
+                        bad = g._path(seen, ins)
+        if bad is not None:
+            chk.violation("R17.15", k, m.loc(bad[-1].ast), f"the insertion is reachable without an assignment of spans: {g.show_path(bad)}; the row is stored with NULL spans/start/stop and list(db.get_features_matching()) then raises TypeError, db.to_rich_dict() KeyError")
+        else:
+            chk.ok("R17.15", k, m.loc(fn), "every path to the insertion assigns spans first")
+    chk.floor("R17.15", 4, "four row builders")
+
+
 def run(chk):
+    r17_15(chk)
     r17_14(chk)
     r17_13(chk)
     r17_12(chk)
